@@ -263,13 +263,13 @@ func (r *nhRun) restartObserved(h *nhHost) {
 	c.net.mu.Unlock()
 	r.hmu[h.id-1].Lock()
 	if err := c.startHost(h); err != nil {
-		panic(fmt.Sprintf("restart of host %d failed: %v", h.id, err))
+		plog.Panicf("restart of host %d failed: %v", h.id, err)
 	}
 	r.bootEvent(h)
 	recIdx, entries := r.layout(h)
 	c.rec.emit("CrashLayout", nhEv{"h": h.id, "rec": recIdx, "entries": entries})
 	if err := c.startReplica(h, nil, false); err != nil {
-		panic(fmt.Sprintf("restart of replica on host %d failed: %v", h.id, err))
+		plog.Panicf("restart of replica on host %d failed: %v", h.id, err)
 	}
 	recIdx2, entries2 := r.layout(h)
 	c.rec.emit("Layout", nhEv{"h": h.id, "rec": recIdx2, "entries": entries2})
